@@ -13,7 +13,7 @@ PROPS['C11'] = dict(
           'plus {0,1,2,63,64,65,126,127} per axis; thorough: all values); config: one case = (algorithm, scaling, full-range flag, model, melodic|percussion '
           'channel) with 8 (thorough 40) sampled points and a full line along CC74, CC7, CC11, master and velocity through each; distinct = distinct '
           '(model, master, algorithm, scaling, brightness class[, flag, channel kind]) tuples judged plus (model, master, velocity) slabs completed'),
-    floor=300,
+    floor=800,
     exhaustive_in=['thorough'],
     assumptions=['carrier operators per algorithm as in the YM2612 manual: alg 0-3: op 4; alg 4: ops 2,4; alg 5,6: ops 2,3,4; alg 7: all; register slots are op 1,3,2,4',
                  'range clause applies to every TL write of a call; monotone / zero / untouched clauses to the four TL in force when the call returns '
